@@ -102,6 +102,7 @@ class Recorder:
         self.cleanup_ran = False
         self.cleanup_raised = None
         self.read_hook = None        # extraction: called as read_hook(key, value) for every read issued by the target frame
+        self.force_keys = {}         # oracle instances: guard key -> outcome every `key in self.data` test is answered with
         if not isinstance(rel.data, HookDict):
             hd = HookDict(rel.data)
             rel.data = hd
@@ -118,6 +119,8 @@ class Recorder:
             if self.forced_pos < len(self.forced):
                 out = self.forced[self.forced_pos]
             self.forced_pos += 1
+        if k in self.force_keys:
+            out = self.force_keys[k]
         self.events.append({"ev": "test", "key": k, "out": bool(out), "depth": self.depth, "real": bool(real)})
         return out
 
